@@ -4,7 +4,7 @@
    the operator admits" (what Specifier() accepts: C12). *)
 From Coq Require Import List Arith NArith Bool Lia.
 Import ListNotations.
-Require Import S1 VParse Py VMeaning VCmp SpecModel SpecOps SpecOps2 Prefix4 Compat Order Laws SpecParse SpecContains SpecSem SpecMain LawsAll VWf VKeyEq.
+Require Import S1 VParse Py VMeaning VCmp SpecModel SpecOps SpecOps2 Prefix4 Compat Order Laws SpecParse SpecContains SpecSem SpecMain LawsAll SpecGate SpecLift VWf VKeyEq.
 Open Scope N_scope.
 
 Definition has (sp : specifier) (item : str) : outcome := contains sp None (Some true) item.
@@ -77,6 +77,82 @@ Theorem C04_strict_never_match_V_or_its_locals c V : Py.local V = None -> vcmp (
   lt_spec c V = false /\ gt_spec c V = false.
 Proof. exact (C04_strict_excludes_locals_of_V c V). Qed.
 Print Assumptions C04_strict_never_match_V_or_its_locals.
+
+(* ------------------------------------------------------------------------------------------------------------------------------
+   The same clauses on contains() itself (code model, prereleases=True): [t] is the specifier's version text, V what it denotes. *)
+Notation "o @ t" := {| sp_op := o; sp_text := t |} (at level 9, only parsing).
+
+(* 2'. ~=V answers exactly the conjunction of the SPECIFIER >=V and the SPECIFIER ==P.*, P = V's epoch and release minus its last component *)
+Theorem C04_compat_is_intersection_of_specifiers t V a c :
+  Version t = Some V -> Py.local V = None -> (2 <= length (Py.release V))%nat -> Version a = Some c ->
+  exists b1 b2, has (OGe @ t) a = Ans b1 /\ has (OEq @ (prefix_text V)) a = Ans b2 /\ has (OCompat @ t) a = Ans (b1 && b2).
+Proof. exact (compat_is_intersection_contains t V a c). Qed.
+Print Assumptions C04_compat_is_intersection_of_specifiers.
+
+(* 5'. closure and cover, on contains(); the order hypothesis is on the public versions (implied by the full order: next two corollaries) *)
+Theorem C04_ge_upward_closed_contains t V a b c c' : Version t = Some V -> Py.local V = None -> Version a = Some c -> Version b = Some c' ->
+  has (OGe @ t) a = Ans true -> vcmp (drop_local c) (drop_local c') <> Gt -> has (OGe @ t) b = Ans true.
+Proof. intros PV NL. exact (ge_upward_contains t V PV NL a b c c'). Qed.
+Print Assumptions C04_ge_upward_closed_contains.
+Theorem C04_le_downward_closed_contains t V a b c c' : Version t = Some V -> Py.local V = None -> Version a = Some c -> Version b = Some c' ->
+  has (OLe @ t) a = Ans true -> vcmp (drop_local c') (drop_local c) <> Gt -> has (OLe @ t) b = Ans true.
+Proof. intros PV NL. exact (le_downward_contains t V PV NL a b c c'). Qed.
+Print Assumptions C04_le_downward_closed_contains.
+Theorem C04_ge_upward_closed_version_order t V a b c c' : Version t = Some V -> Py.local V = None -> Version a = Some c -> Version b = Some c' ->
+  has (OGe @ t) a = Ans true -> pep440_cmp c c' <> Gt -> has (OGe @ t) b = Ans true.
+Proof. exact (ge_upward_contains_full_order t V a b c c'). Qed.
+Print Assumptions C04_ge_upward_closed_version_order.
+Theorem C04_le_downward_closed_version_order t V a b c c' : Version t = Some V -> Py.local V = None -> Version a = Some c -> Version b = Some c' ->
+  has (OLe @ t) a = Ans true -> pep440_cmp c' c <> Gt -> has (OLe @ t) b = Ans true.
+Proof. exact (le_downward_contains_full_order t V a b c c'). Qed.
+Print Assumptions C04_le_downward_closed_version_order.
+Theorem C04_ge_le_cover_contains t V a c : Version t = Some V -> Py.local V = None -> Version a = Some c ->
+  exists b1 b2, has (OGe @ t) a = Ans b1 /\ has (OLe @ t) a = Ans b2 /\ b1 || b2 = true.
+Proof. intros PV NL. exact (ge_le_cover_contains t V PV NL a c). Qed.
+Print Assumptions C04_ge_le_cover_contains.
+
+(* 6'. <V inside <=V, >V inside >=V, neither matches V or a local version of V (any candidate whose public version equals V) *)
+Theorem C04_lt_inside_le_contains t V a c : Version t = Some V -> Py.local V = None -> Version a = Some c ->
+  has (OLt @ t) a = Ans true -> has (OLe @ t) a = Ans true.
+Proof. intros PV NL. exact (lt_inside_le_contains t V PV NL a c). Qed.
+Print Assumptions C04_lt_inside_le_contains.
+Theorem C04_gt_inside_ge_contains t V a c : Version t = Some V -> Py.local V = None -> Version a = Some c ->
+  has (OGt @ t) a = Ans true -> has (OGe @ t) a = Ans true.
+Proof. intros PV NL. exact (gt_inside_ge_contains t V PV NL a c). Qed.
+Print Assumptions C04_gt_inside_ge_contains.
+Theorem C04_strict_never_match_contains t V a c : Version t = Some V -> Py.local V = None -> Version a = Some c ->
+  vcmp (drop_local c) V = Eq -> has (OLt @ t) a = Ans false /\ has (OGt @ t) a = Ans false.
+Proof. intros PV NL. exact (strict_never_match_contains t V PV NL a c). Qed.
+Print Assumptions C04_strict_never_match_contains.
+
+(* 3'./4'. the equal-candidate and local-label laws hold under EVERY pre-release setting (object setting [ov], call argument [arg]) *)
+Theorem C04_equal_candidates_any_setting sp f ov arg a b c c' :
+  interp sp = Some f -> form_ok (sp_op sp) f -> sp_op sp <> OArb ->
+  Version a = Some c -> Version b = Some c' -> pep440_cmp c c' = Eq -> contains sp ov arg a = contains sp ov arg b.
+Proof. exact (equal_candidates_any_setting sp f ov arg a b c c'). Qed.
+Print Assumptions C04_equal_candidates_any_setting.
+Theorem C04_local_label_irrelevant_any_setting sp f ov arg a b c l :
+  interp sp = Some f -> form_ok (sp_op sp) f -> sp_op sp <> OArb -> no_local_form f ->
+  Version a = Some c -> Py.local c = None -> Version b = Some (add_local c l) -> contains sp ov arg a = contains sp ov arg b.
+Proof. exact (local_label_irrelevant_any_setting sp f ov arg a b c l). Qed.
+Print Assumptions C04_local_label_irrelevant_any_setting.
+
+(* 1'. the exact scope of the complement clause: under every setting it holds for every candidate that is not a pre-release;
+       for a pre-release candidate with the gate closed on both specifiers it fails (both answer False).
+       The closure/cover/intersection clauses share this scope: they are statements about prereleases=True (as the quantifier "as in C03" says). *)
+Theorem C04_ne_complement_non_prerelease t f ov arg a c :
+  interp (OEq @ t) = Some f -> form_ok OEq f -> Version a = Some c -> is_prerelease c = false ->
+  exists b, contains (OEq @ t) ov arg a = Ans b /\ contains (ONe @ t) ov arg a = Ans (negb b).
+Proof. exact (ne_complement_non_prerelease t f ov arg a c). Qed.
+Print Assumptions C04_ne_complement_non_prerelease.
+Theorem C04_ne_complement_fails_when_gated t ov arg a c : Version a = Some c -> is_prerelease c = true ->
+  gate_setting (OEq @ t) ov arg = false -> gate_setting (ONe @ t) ov arg = false ->
+  contains (OEq @ t) ov arg a = Ans false /\ contains (ONe @ t) ov arg a = Ans false.
+Proof. exact (ne_complement_fails_when_gated t ov arg a c). Qed.
+Print Assumptions C04_ne_complement_fails_when_gated.
+
+Example C04_lifted_nonvacuous : lift_check = true.
+Proof. vm_compute. reflexivity. Qed.
 
 (* non-vacuity: ">= v1.0.RC1" admits a form; 1.0 and 1.0.0 are equal candidates that it matches *)
 Definition nonvac_check : bool :=
